@@ -332,10 +332,15 @@ def inv_small(M):
         return np.stack([inv_small(M[i]) for i in range(M.shape[0])]).view(SymArray)
     n = M.shape[0]
     if n == 1:
-        return sarr([[1 / SymReal.lift(M[0, 0])]])
+        m00 = SymReal.lift(M[0, 0])
+        if m00.sign != "+" and bool(m00 == 0):
+            raise np.linalg.LinAlgError("Singular matrix")
+        return sarr([[1 / m00]])
     if n == 2:
         a, b, c, d = [SymReal.lift(v) for v in (M[0, 0], M[0, 1], M[1, 0], M[1, 1])]
         det = a * d - b * c
+        if bool(det == 0):
+            raise np.linalg.LinAlgError("Singular matrix")
         r = det.reciprocal()
         return sarr([[d * r, -b * r], [-c * r, a * r]])
     raise HarnessError("inv_small: d > 2")
